@@ -283,6 +283,11 @@ class Engine:
             r = h(self, st, v, spec, origin)
             if r is not None:
                 return r
+        import re as _re
+
+        if isinstance(v, (VFloat, VInt, VBool)) and _re.fullmatch(r"[<>^]?\d*(\.\d+)?[fgedXx]?", spec):
+            # numeric formatting never raises; the text itself is not characterised here
+            return [(st, VStr(fresh("fmt", z3.StringSort())))]
         raise Unsupported(f"format spec {spec!r} on {v!r}")
 
     def ev_BoolOp(self, node, st):
